@@ -247,6 +247,10 @@ pub fn sets(ctx: &Ctx) -> Vec<CaseSet> {
                 check_value(rep, &Value::bytes(vec![b]), rule, rng, "table-byte");
             }
             check_value(rep, &Value::bytes((0..=255u8).collect::<Vec<u8>>()), rule, rng, "table-byte");
+            // values shaped like quotation forms (what a shorthand expands to) and their near misses
+            for v in crate::props::common::quote_shaped() {
+                check_value(rep, &v, rule, rng, "quote-shaped");
+            }
         }),
     ));
 
